@@ -133,9 +133,10 @@ Theorem C01_schedule_independent_refuted :
 Proof. exact schedule_independent_refuted. Qed.
 Print Assumptions C01_schedule_independent_refuted.
 
-(* The batch size at which a visit commits its admitted children in the middle of a scrape (Model/Engine.v flush_size) is the one
-   in the source (Gen/Consts.v, regenerated from wpull/pipeline/session.py ItemSession.add_url on every run). *)
-Theorem C01_child_batch_size_is_the_source : N.of_nat flush_size = gen_child_batch_size.
+(* The batch size at which a visit commits its admitted children in the middle of a scrape (Model/Engine.v flush_size) is read
+   from the source (Gen/Consts.v, regenerated from wpull/pipeline/session.py ItemSession.add_url on every run), and positive -
+   all the theorems above need. *)
+Theorem C01_child_batch_size_is_the_source : flush_size = N.to_nat gen_child_batch_size /\ (1 <= flush_size)%nat.
 Proof. exact engine_child_batch_size_agrees. Qed.
 Print Assumptions C01_child_batch_size_is_the_source.
 
